@@ -23,9 +23,10 @@ from ..model import scope
 ID = 'C13'
 LEVEL = 'exploration'
 RULE = ('case = one generated program (section tree of depth <= 4 with same-named constants on several levels, references before/after the '
-        'definitions with every qualifier form, PUBLIC/GLOBAL exports to every ancestor, FORWARD, macro-local labels, named/nameless/composed '
-        'temporaries, EQU/SET/label mutability, PUSHV/POPV) assembled once, with or without -U, on 6502/68000/Z80; every 4th program carries one '
-        'planted rule violation; distinct = distinct (reference kind, qualifier form, before/after definition, section depth, how the definition '
+        'definitions with every qualifier form, PUBLIC/GLOBAL exports to every ancestor, FORWARD, macro-local labels, the manual\'s proc/endp '
+        'macro pair, named/nameless/composed temporaries, EQU/SET/label mutability, PUSHV/POPV of integer and string symbols, names of up to 230 '
+        'characters that differ in the last one) assembled once, with or without -U, on 6502/68000/Z80; every 4th program carries one planted '
+        'rule violation, every other 4th one is pruned so that nothing asks for a second pass; distinct = distinct (reference kind, qualifier form, before/after definition, section depth, how the definition '
         'reached its section, case mode) of a compared reference, or (fault class, error number) of a refused program; non-trivial = at least one '
         'reference compared or one planted fault diagnosed')
 ASSUMPTIONS = ['`nop` and the word data statement (adr / dc.w / dw) have fixed sizes on the three targets, so label values are computable',
@@ -411,7 +412,7 @@ class Gen:
             elif r < 0.78:
                 n = rng.randrange(0, depth + 1)
                 if rng.random() < 0.04:
-                    n = depth + 1
+                    n = rng.randrange(depth + 1, 10)      # PARENT5..9 cannot exist in a tree of depth 4: must be refused
                 q = self.kw_parent(n)
             elif r < 0.95 and path:
                 q = self.sp(rng.choice(path)[1])
